@@ -67,6 +67,19 @@ class Engine:
             m = self.solver.model()
         if extra:
             self.solver.pop()
+        if r == z3.unknown:
+            # incremental solving under a time limit occasionally gives up on queries a fresh solver decides at once (and a loaded
+            # machine eats the budget): one retry from scratch with four times the budget before the answer counts as unknown
+            s2 = z3.Solver()
+            s2.set('timeout', int(self.timeout_ms * 4))
+            for a in self.solver.assertions():
+                s2.add(a)
+            for x in extra:
+                s2.add(x)
+            r = s2.check()
+            self.stats['retries'] = self.stats.get('retries', 0) + 1
+            if r == z3.sat:
+                m = s2.model()
         self.stats['queries'] += 1
         self.stats['solver_s'] += time.time() - t
         return r, m
